@@ -9,9 +9,12 @@ NESTED = "nested (depth 2) templates: an if/elif/for inside the body of an outer
 LOOP = "loop-straddling templates: for-loop bodies whose last fragment starts an expression continued by the first fragment of the next iteration (600)"
 FIXT = "every dialect fixture <= 250 B (thorough 1000 B) fixed in its own dialect"
 GLUE = "operator / sign / comment-adjacent input list (fixfam.GLUE, 60 statements)"
+GAPS = "every dialect fixture <= 80 B (thorough 150 B) with ' -- c<newline>' inserted after EVERY token in turn, fixed in its own dialect (8 543 inputs)"
+LPROD = "layout option product (max_line_length {6, 10, 20, 45} x implicit_indents {forbid, allow, require} x G(1) + operator list with short / long identifiers)"
 
 EXTRA = {
-    "C01": SPAN + "; " + NESTED + ".",
+    "C01": SPAN + "; " + NESTED + "; the public Lexer on un-normalised text (every string over Sigma_c^<=3 containing a lone CR x 28 dialects); every alphabet "
+    "character arriving as template OUTPUT (context / bind-parameter value) x 4 shapes x {jinja, python, placeholder}.",
     "C02": SPAN + "; " + LOOP + "; a missing tree is accepted only for unbalanced brackets and depth/node limits.",
     "C03": SPAN + "; " + LOOP + ".",
     "C04": "Jinja " + SPAN + " (parse, lint, fix); EVERY max_parse_depth in 1..140 x 3 small files x {parse, lint, fix}; large_file_skip_char_limit in {5, 16} x 4 "
@@ -19,15 +22,19 @@ EXTRA = {
     "C05": "every assignment of <= 2 enumerated options of every rule (36 rules with options) x that rule's YAML strings and the " + GLUE + ", that rule alone, lint + fix.",
     "C06": "part C: statement pairs forced to collide in one parse -- per dialect, fixture statements grouped by first keyword, representative A of each two-keyword "
     "kind x every statement B of the group (55 k files 'A; B;'), B's subtree shape must equal its shape when parsed alone; part D: simple() first-token hints of "
-    "EVERY reachable grammar node of every dialect evaluated in forward and in reverse order in one ParseContext must be identical (127 k nodes).",
+    "EVERY reachable grammar node of every dialect evaluated in forward and in reverse order in one ParseContext must be identical (127 k nodes); part E: ONE "
+    "sqlfluff.core.Parser object used for every ordered pair (thorough: triple) of 18 colliding inputs (same first token / positions / token count; files needing "
+    "exactly, less than and more than max_parse_depth) x {default config, max_parse_depth = smallest value that parses 'SELECT ((1))'}, each result vs a fresh Parser.",
     "C07": SPAN + "; " + NESTED + ".",
     "C08": SPAN + "; " + NESTED + ".",
-    "C10": SPAN + ".",
+    "C10": SPAN + "; a template expression / bind parameter in every kind of place (inline comment, block comment, string, code, end of an over-long line: 11 "
+    "shapes) x {jinja, python, 9 placeholder styles} x {default, max_line_length 30}.",
     "C11": SPAN + "; 12 line-break-like characters (VT, FF, FS, GS, RS, NEL, LS, PS, CR, CRLF, NBSP, BOM) inside a string literal, a comment and between tokens; "
     "the reference text is the INPUT with only CRLF/CR -> LF.",
-    "C12": FIXT + "; " + GLUE + ".",
-    "C13": FIXT + "; " + GLUE + ".",
-    "C14": FIXT + " under the layout group; " + GLUE + ".",
+    "C12": FIXT + "; " + GLUE + "; " + GAPS + "; " + LPROD + " x all.",
+    "C13": FIXT + "; " + GLUE + "; " + GAPS + "; " + LPROD + " x all; Jinja: every span template of <= 3 items inside an identifier / quoted literal x 4 statement "
+    "shapes, all rules.",
+    "C14": FIXT + " under the layout group; " + GLUE + "; " + GAPS + "; " + LPROD + " x layout.",
     "C15": "statements with quoted / schema-qualified type names and comments inside a data type.",
     "C16": GLUE + ".",
     "C17": FIXT + "; " + GLUE + "; layout option product: max_line_length {6, 10, 20, 45} x implicit_indents {forbid, allow, require} x (G(1) + operator list, "
